@@ -20,6 +20,7 @@ import (
 type hop struct {
 	kind   string
 	i, j   int
+	k, tmp int // merge3: third operand; index of the intermediate object base.Merge(j)
 	t      int
 	keys   []string
 	fields [][2]any // key, schema id
@@ -103,6 +104,9 @@ func (o hop) sx() *sx.Node {
 		return sx.T("extend", sx.I(int64(o.i)), fm())
 	case "merge":
 		return sx.T("merge", sx.I(int64(o.i)), sx.I(int64(o.j)))
+	case "merge3b":
+		// second half of x.Merge(y, z): the model folds the operands one at a time
+		return sx.T("merge", sx.I(int64(o.tmp)), sx.I(int64(o.k)))
 	}
 	panic("hop")
 }
@@ -182,6 +186,11 @@ func runHelperProgram(ops []hop, usePosts, warm bool) (string, string) {
 				if o.i < len(objs) && o.j < len(objs) {
 					objs = append(objs, objs[o.i].Merge(objs[o.j]))
 				}
+			case "merge3b":
+				// ONE call with three operands; (the two-operand merge recorded just before is object o.tmp)
+				if o.i < len(objs) && o.j < len(objs) && o.k < len(objs) {
+					objs = append(objs, objs[o.i].Merge(objs[o.j], objs[o.k]))
+				}
 			}
 			if warm {
 				for _, s := range objs {
@@ -227,7 +236,7 @@ func runHelperProgram(ops []hop, usePosts, warm bool) (string, string) {
 
 func streamHelpers(seed uint64, n int, driver string) (*Summary, error) {
 	sum := newSummary("helpers", seed)
-	sum.Rule = "random programs (3..14 ops) over Struct / Test|PostTransform / Pick / Omit / Extend / Merge; bases are given several tests first so that their slices have spare capacity; siblings are derived from one base and extended in interleaved orders; Pick/Omit take strings, one map[string]bool, or a mixed argument list; a Pick in three also names keys its receiver does not have (strings, several maps, false entries for keys selected by another argument); afterwards every schema object is executed and observed; each program runs four times (Tests / PostTransforms x objects first executed at the end / every object executed after each step); non-trivial = at least two objects derived from one base, one of them extended afterwards; distinct = distinct program"
+	sum.Rule = "random programs (3..14 ops) over Struct (also without fields) / Test|PostTransform / Pick / Omit / Extend (also with nothing) / Merge with two and with three operands; bases are given several tests first so that their slices have spare capacity; siblings are derived from one base and extended in interleaved orders; Pick/Omit take strings, one map[string]bool, or a mixed argument list; a Pick in three also names keys its receiver does not have (strings, several maps, false entries for keys selected by another argument); afterwards every schema object is executed and observed; each program runs four times (Tests / PostTransforms x objects first executed at the end / every object executed after each step); non-trivial = at least two objects derived from one base, one of them extended afterwards; distinct = distinct program"
 	root := rng.New(seed)
 	var lines []string
 	var progs [][]hop
@@ -240,6 +249,9 @@ func streamHelpers(seed uint64, n int, driver string) (*Summary, error) {
 		nextSchema, nextTest := 0, 10
 		mkFields := func() [][2]any {
 			k := r.Range(1, 4)
+			if r.P(1, 6) {
+				k = 0 // a schema without fields (a tests-only mixin), an Extend that adds nothing
+			}
 			perm := []int{0, 1, 2, 3}
 			r.Shuffle(4, func(i, j int) { perm[i], perm[j] = perm[j], perm[i] })
 			var fs [][2]any
@@ -351,6 +363,14 @@ func streamHelpers(seed uint64, n int, driver string) (*Summary, error) {
 				ops = append(ops, hop{kind: "merge", i: i, j: j})
 				derivedFrom[len(keysOf)] = i
 				keysOf = append(keysOf, union(keysOf[i], keysOf[j]))
+				if r.P(1, 2) {
+					// x.Merge(y, z) in ONE call: must be (x merged with y) merged with z
+					k := r.Intn(len(keysOf) - 1)
+					tmp := len(keysOf) - 1
+					ops = append(ops, hop{kind: "merge3b", i: i, j: j, k: k, tmp: tmp})
+					derivedFrom[len(keysOf)] = i
+					keysOf = append(keysOf, union(keysOf[tmp], keysOf[k]))
+				}
 			}
 		}
 		items := []*sx.Node{sx.I(int64(c))}
